@@ -930,7 +930,39 @@ func (u *Unit) mapOf(fx *FX, m VMap) *cmap {
 	return nil
 }
 
-func (u *Unit) mapMake(fx *FX, st *State, ref T, x *ssa.MakeMap) {}
+// Maps with string keys and string values (map[string]string, url.Values through Set/Get) carry an
+// abstract content value in string-heap slot 0 of the map object: qempty, qset(m, k, v); it is read
+// with qhas(m, k) / qval(m, k) (axioms in the spec library).
+func strStrMap(t types.Type) bool {
+	m, ok := t.Underlying().(*types.Map)
+	if !ok {
+		return false
+	}
+	kb, ok := m.Key().Underlying().(*types.Basic)
+	if !ok || kb.Info()&types.IsString == 0 {
+		return false
+	}
+	switch e := m.Elem().Underlying().(type) {
+	case *types.Basic:
+		return e.Info()&types.IsString != 0
+	case *types.Slice: // url.Values: map[string][]string, used through Set/Get only
+		eb, ok := e.Elem().Underlying().(*types.Basic)
+		return ok && eb.Info()&types.IsString != 0
+	}
+	return false
+}
+
+func (fx *FX) mapGhost(st *State, ref T) T { return sel(sel(fx.rHs(st, ref), ref), num(0)) }
+
+func (fx *FX) setMapGhost(st *State, ref T, v T) {
+	st.Hs = fx.def("Hs", sto(st.Hs, ref, sto(sel(st.Hs, ref), num(0), v)))
+}
+
+func (u *Unit) mapMake(fx *FX, st *State, ref T, x *ssa.MakeMap) {
+	if strStrMap(x.Type()) {
+		fx.setMapGhost(st, ref, T{"qempty", SSeq})
+	}
+}
 
 func (u *Unit) ckeyTerm(fx *FX, k cval) (T, bool) {
 	switch v := k.(type) {
@@ -1058,7 +1090,15 @@ func (u *Unit) mapUpdate(fx *FX, st *State, m VMap, x *ssa.MapUpdate) {
 		// writing a map that this call did not create
 		fx.oblige("own:global-write", "map", st.PC, not(sel(fx.entry.Alloc, m.Ref)), x.Pos(), "map update on a map not created by this call")
 	}
-	fx.note("contents of locally built maps are not tracked")
+	if strStrMap(x.Map.Type()) {
+		if k, ok := fx.val(x.Key).(VStr); ok {
+			if v, ok := fx.val(x.Value).(VStr); ok {
+				fx.setMapGhost(st, m.Ref, app(SSeq, "qset", fx.mapGhost(st, m.Ref), k.T, v.T))
+				return
+			}
+		}
+	}
+	fx.note("contents of locally built maps (other than string->string) are not tracked")
 }
 
 func (u *Unit) mapLen(fx *FX, st *State, m VMap) Val {
@@ -1073,6 +1113,15 @@ func (u *Unit) mapLen(fx *FX, st *State, m VMap) Val {
 func (u *Unit) mapNext(fx *FX, st *State, m VMap, x *ssa.Next, ok T, k, v Val) {
 	cm := u.mapOf(fx, m)
 	if cm == nil {
+		if r, isR := x.Iter.(*ssa.Range); isR && strStrMap(r.X.Type()) {
+			if kv, isK := k.(VStr); isK {
+				g := fx.mapGhost(st, m.Ref)
+				fx.assume(ok, app(SBool, "qhas", g, kv.T))
+				if vv, isV := v.(VStr); isV {
+					fx.assume(ok, eq(vv.T, app(SSeq, "qval", g, kv.T)))
+				}
+			}
+		}
 		return
 	}
 	// the key is one of the literal keys
